@@ -4,6 +4,7 @@ import ZarrsModel.Driver.C08
 import ZarrsModel.Driver.C09
 import ZarrsModel.Driver.C10
 import ZarrsModel.Driver.C11
+import ZarrsModel.Driver.C18
 import ZarrsModel.Driver.C19
 /-
 Line-protocol driver: reads `request -> implementation outcome` lines, replays each request through the
@@ -28,6 +29,7 @@ def dispatch (st : DState) (l : Line) : Option (DState × List String × Option 
   | some "c08" => (DriverC08.handle st.c08 l).map (fun (s, a, n) => ({ st with c08 := s }, a, n))
   | some "c09" => (DriverC09.handle l).map (fun m => (st, [m], none))
   | some "c10" => (DriverC10.handle l).map (fun m => (st, [m], none))
+  | some "c18" => (DriverC18.handle l).map (fun (a, n) => (st, a, n))
   | some "c19" => (DriverC19.handle l).map (fun a => (st, a, none))
   | some "c11" => (DriverC11.handle l).map (fun m => (st, [m], none))
   | _ => none
@@ -45,7 +47,11 @@ partial def loop (h : IO.FS.Stream) (st : DState) (n : Nat) (ok diff bad : Nat) 
     if acc.contains l.outcome || acc.contains "any" then loop h st' (n + 1) (ok + 1) diff bad
     else IO.println s!"DIFF {n} model={" || ".intercalate acc}"; loop h st' (n + 1) ok (diff + 1) bad
 
-def main : IO UInt32 := do
+def main (args : List String) : IO UInt32 := do
+  -- `driver --gen c18 <tier> <seed>`: the driver is the case generator where only the model knows the valid cases
+  if let ["--gen", "c18", tier, seed] := args then
+    for l in DriverC18.genCases tier (seed.toNat?.getD 1) do IO.println l
+    return 0
   let stdin ← IO.getStdin
   let (ok, diff, bad) ← loop stdin {} 1 0 0 0
   IO.println s!"SUMMARY ok={ok} diff={diff} bad={bad}"
